@@ -60,6 +60,32 @@ CHECKS = {
     note='Language equality is explored to a length bound and by sampling, not proved for unbounded length (a symbolic decision procedure '
          'is outside this technique family). The alphabet partition is recomputed from the patterns on every run.',
     ref='DESIGN.md §4 C04'),
+ 'C06': dict(
+    technique='bounded-exhaustive enumeration of digit strings + boundary-directed grid and residue-float generation + Hypothesis text; exact Fraction oracle and format/parse round trip',
+    text='round_up_str_num on all strings of the stated shape x prec 0..5 against the exact ceiling; format_seconds_as_time on millisecond grids around '
+         'minute/hour boundaries up to 100 h and on floats with arithmetic residue, judged by shape, fields < 60 and the round trip '
+         'd - 1e-5 <= parse_hms(out) < d + 10^-prec in exact arithmetic; parse_hms on structured and arbitrary text (exact sexagesimal value or ValueError).',
+    note='Durations are sampled around boundaries (all 6000 minute boundaries only in the thorough tier). atheris engine on parse/format in the thorough tier when installed.',
+    ref='DESIGN.md §4 C06'),
+ 'C13': dict(
+    technique='boundary-directed generation of (birth, meeting) date pairs, complete cross product in the thorough tier; oracle = rule text re-implemented with a hand-written completed-years function',
+    text='Birth dates within 3 days of every anniversary of each cut-off for a seeded set of meeting dates (quick) and the complete 1461 x ~40 000 cross '
+         'product for TF and XC (thorough); expected group from the rule text; structural clauses (defined, ISO text == date, monotone in birth date, options).',
+    note='TF rule-text equality only for meetings 1 Jan - 30 Sep (as the property states); under-11 split follows the library\'s documented extension.',
+    ref='DESIGN.md §4 C13'),
+ 'C14': dict(
+    technique='complete enumeration of tables x spellings x integer/half/quarter ages against independently read JSON cells; metamorphic spelling and monotonicity relations',
+    text='Every row of the 2015, 2023 and combined-events tables at every covered integer and half-integer age up to 20 years past the last column, all '
+         'gender spellings and event cases; factor == cell / between neighbours / last column, identical results across spellings, grade == standard ratio, '
+         'grade(best) == 1.0 where factor is 1, better => higher.',
+    note='Finite domain for the factor clauses (complete in both tiers); grades sampled on a performance grid.',
+    ref='DESIGN.md §4 C14'),
+ 'C15': dict(
+    technique='dense distance sweep (every metre to 12 km, strided to 400 km, three spellings) with bracket oracle computed independently from the JSON km column; adjacent-pair order relation',
+    text='For every generated non-tabulated distance code the factor must lie within the factors of the nearest tabulated rows below and above (found from the '
+         'table data, not by the library\'s scan) and the open best within theirs, increasing with distance; beyond the ends: nearest end row, no exception.',
+    note='The distance a code denotes is computed by the check. 1e-4 tolerance (table resolution).',
+    ref='DESIGN.md §4 C15'),
  'C07': dict(
     technique='grammar-directed generation from the regex syntax tree + structural spelling variants; algebraic-law oracle (closure, idempotence, confluence)',
     text='Codes generated from PAT_EVENT_CODE\'s syntax tree (every alternative covered), their case/space/suffix/trailing-zero variants, near '
